@@ -228,11 +228,11 @@ def firstDiff (a b : List (Int × Int × Cell)) : String :=
 
 /-- Observation through the reference terminal after a `Render` (the property's observation point):
     a cluster of display width `W ≥ 2` shown at `(x,y)` also occupies the columns `x+1 … x+W-1`.
-    Returns the first displayed wide cluster placed by the op whose continuation columns are not all
-    inside the clip region.  Cells shadowed by an earlier wide cluster of the row are not displayed;
+    Returns the first displayed wide cluster placed by the op one of whose continuation columns does
+    not satisfy `inside`.  Cells shadowed by an earlier wide cluster of the row are not displayed;
     a cluster that does not fit in the rest of the *screen* row is rendered as a blank (C01, F02
     repaired), so it occupies one column. -/
-def spill (p : Parsed) (win : Win) (s : Screen) (cells : List (Int × Int × Cell)) : Option (Int × Int × Int × Int) :=
+def spill (p : Parsed) (inside : Int → Int → Bool) (s : Screen) (cells : List (Int × Int × Cell)) : Option (Int × Int × Int × Int) :=
   let widthOf (c : Cell) : Int := if c.w = 0 then p.lib.cw c.g else c.w
   let cellAt (x y : Int) : Cell := match cells.find? (fun (x', y', _) => x' = x ∧ y' = y) with
     | some (_, _, c) => c
@@ -248,11 +248,34 @@ def spill (p : Parsed) (win : Win) (s : Screen) (cells : List (Int × Int × Cel
         let w := widthOf c
         if w ≥ 2 ∧ x + w ≤ s.cols then
           let changed := c != sentinel
-          match (if changed then (upTo w).find? (fun i => i ≥ 1 ∧ ¬ Spec.Window.visible win s (x + i) y) else none) with
+          match (if changed then (upTo w).find? (fun i => i ≥ 1 ∧ ¬ inside (x + i) y) else none) with
           | some i => some (x, y, w, x + i)
           | none => scan y rest (w.toNat - 1)
         else scan y rest 0
   (upTo s.rows).findSome? fun y => scan y (upTo s.cols) 0
+
+/-- The three readings of "the cluster stays inside":
+    * in the window's own rectangle — required of every chain (`Props.C11.print_fits` …; a failure is
+      `spill`, the F111 defect, repaired);
+    * in the clip region, for a right-nested chain (everything `vx.Window()`/`New` build) — follows
+      from the first (`Props.C11.text_extent_clip`; a failure is `spill` too);
+    * in the clip region, for a chain with a struct-literal child that reaches beyond its parent's
+      right edge — the window accepts a wide cluster on the parent's last column (`spill-literal`,
+      known finding F111b). -/
+def spillVerdict (p : Parsed) (win : Win) (s : Screen) (cells : List (Int × Int × Cell)) : String :=
+  let own := fun (x y : Int) => decide (Spec.Window.inOwnRect win x y)
+  let clip := fun (x y : Int) => decide (Spec.Window.visible win s x y)
+  match spill p own s cells with
+  | some (x, y, w, xo) =>
+      s!"FAIL spill {p.kind}: the cluster of width {w} placed at {x},{y} is displayed up to column {xo}, outside the window"
+  | none =>
+    match spill p clip s cells with
+    | some (x, y, w, xo) =>
+        if decide (Spec.Window.rightNested win) then
+          s!"FAIL spill {p.kind}: the cluster of width {w} placed at {x},{y} is displayed up to column {xo}, outside the clip region"
+        else
+          s!"FAIL spill-literal {p.kind}: the cluster of width {w} placed at {x},{y} is displayed up to column {xo}, outside an ancestor that the struct-literal window reaches beyond"
+    | none => "ok"
 
 def verdict (p : Parsed) (impl : Impl) : String :=
   match chainOfGeoms impl.geoms with
@@ -279,10 +302,7 @@ def verdict (p : Parsed) (impl : Impl) : String :=
         let want := Spec.Window.expected win s ops
         if impl.cells ≠ want then s!"FAIL placement {p.kind}: {firstDiff impl.cells want}"
         else if ["print", "wrap", "println", "trunc"].contains p.kind then
-          match spill p win s impl.cells with
-          | some (x, y, w, xo) =>
-              s!"FAIL spill {p.kind}: the cluster of width {w} placed at {x},{y} is displayed up to column {xo}, outside the clip region"
-          | none => "ok"
+          spillVerdict p win s impl.cells
         else "ok"
 
 def charsStr (l : List Chr) : String :=
